@@ -11,6 +11,7 @@ CONSTANTS
   Instants <- MCInstantsSmall
   OrderPids <- MCPids
   CashOps = FALSE
+  BadQuotes = FALSE
 CONSTRAINT Bound
 VIEW View
 INVARIANT ClocksOrdered
